@@ -79,11 +79,11 @@ def crates_of(out):
     return sorted(d for d in os.listdir(out) if os.path.isfile(os.path.join(out, d, "Cargo.toml")))
 
 
-def build(out):
+def build(out, profile=None):
     """cargo build of the batch crates; returns (ok_crates, errors_by_grammar) with rustc diagnostics attributed by file name."""
     ws.materialise()
     crates = crates_of(out)
-    args = ["build", "--offline", "--keep-going"]
+    args = ["build", "--offline", "--keep-going"] + (["--profile", profile] if profile else [])
     for c in crates:
         args += ["-p", c]
     p = ws.cargo(args, json_messages=True, timeout=3600)
@@ -150,7 +150,7 @@ def prune(out, bad_ids):
     return p.returncode == 0
 
 
-def run_wave(prop, out, seed, cases, max_len, extra=()):
+def run_wave(prop, out, seed, cases, max_len, extra=(), profile=None):
     crates = crates_of(out)
     models = os.path.join(out, "models.json")
     partials = []
@@ -162,7 +162,7 @@ def run_wave(prop, out, seed, cases, max_len, extra=()):
     jobs = []
     with ThreadPoolExecutor(max_workers=16) as ex:
         for c in crates:
-            b = ws.tool(c)
+            b = ws.tool(c, profile)
             if not os.path.isfile(b):
                 continue
             o = os.path.join(pdir, c + ".json")
